@@ -25,8 +25,10 @@ open SaVerif.Expire
 def Coh (st : St) : Prop := ∀ k o, st.objs k = some o → CohObj o (st.rows k)
 def WF (c : Cfg) (st : St) : Prop := ∀ k o, st.objs k = some o → WFObj c o
 
+/-- operations that bring state in from outside the Session: the other connection's writes,
+    and (re-)attaching an instance that was loaded earlier / elsewhere -/
 def isExt : Op → Bool
-  | .extSet _ _ _ | .extDel _ | .extIns _ _ => true
+  | .extSet _ _ _ | .extDel _ | .extIns _ _ | .detach _ | .attach _ _ => true
   | _ => false
 
 /-! ## small facts about the state transformers -/
@@ -38,20 +40,20 @@ theorem expireAllObjs_some {objs : Nat → Option Obj} {k : Nat} {o' : Obj}
   | none => simp [ho] at h
   | some o => simp only [ho, Option.map_some, Option.some.injEq] at h; exact ⟨o, rfl, h.symm⟩
 
-theorem coh_expireAll (rows : DB) (saved : Option DB) (objs : Nat → Option Obj) (txn : Bool) :
-    Coh ⟨rows, saved, expireAllObjs objs, txn⟩ := by
+theorem coh_expireAll (rows : DB) (saved : Option DB) (objs : Nat → Option Obj) (txn : Bool)
+    (det : Nat → Option Obj) : Coh ⟨rows, saved, expireAllObjs objs, txn, det⟩ := by
   intro k o' h
   obtain ⟨o, _, he⟩ := expireAllObjs_some h
   rw [he]; exact cohObj_expireObj o _
 
-theorem wf_expireAll (c : Cfg) (rows : DB) (saved : Option DB) (objs : Nat → Option Obj) (txn : Bool) :
-    WF c ⟨rows, saved, expireAllObjs objs, txn⟩ := by
+theorem wf_expireAll (c : Cfg) (rows : DB) (saved : Option DB) (objs : Nat → Option Obj) (txn : Bool)
+    (det : Nat → Option Obj) : WF c ⟨rows, saved, expireAllObjs objs, txn, det⟩ := by
   intro k o' h
   obtain ⟨o, _, he⟩ := expireAllObjs_some h
   rw [he]; exact wfObj_expireObj c o
 
-theorem coh_rolledBack (st : St) : Coh (rolledBack st) := coh_expireAll _ _ _ _
-theorem wf_rolledBack (c : Cfg) (st : St) : WF c (rolledBack st) := wf_expireAll c _ _ _ _
+theorem coh_rolledBack (st : St) : Coh (rolledBack st) := coh_expireAll _ _ _ _ _
+theorem wf_rolledBack (c : Cfg) (st : St) : WF c (rolledBack st) := wf_expireAll c _ _ _ _ _
 
 theorem setObj_objs (st : St) (k j : Nat) (o : Option Obj) :
     (setObj st k o).objs j = if j = k then o else st.objs j := rfl
@@ -310,6 +312,17 @@ theorem fresh_after_populate_existing (c : Cfg) (st st1 : St) (filt : Option (At
     simp only [ho1, Option.some.injEq, if_true] at h
     rw [← h]; exact ⟨rfl, Or.inr ⟨r, hr, rfl⟩⟩
 
+/-- an instance that was loaded earlier / elsewhere and is (re-)attached — `add()` of a
+    detached object or `merge(obj, load=False)` — is loaded in a transaction that never
+    touched the database; the commit that follows expires it all the same
+    (`fresh_after_commit_eoc` holds for every state), so the next read goes to the database.
+    This is the state: attached, loaded, transaction begun. -/
+theorem attach_loaded (c : Cfg) (st : St) (k : Nat) (m : Bool) (o : Obj)
+    (hd : st.det k = some o) (hn : st.objs k = none) :
+    (step c st (.attach k m)).1.objs k = some (cleanCopy o) ∧ (step c st (.attach k m)).1.txn = true ∧
+    (step c st (.attach k m)).1.rows = st.rows ∧ (step c st (.attach k m)).1.saved = st.saved := by
+  simp [step, hd, hn]
+
 /-! ## pending values survive -/
 
 theorem flushObj_dict (o : Obj) (row : Option Vals) (a : Attr) (v : Int) (h : o.dict a = some v) :
@@ -356,6 +369,7 @@ def Discards (c : Cfg) (op : Op) (k : Nat) (a : Attr) : Bool :=
   | .query pop _ => pop
   | .rollback => true
   | .commit => c.eoc
+  | .detach k' => k' == k
   | _ => false
 
 /-- **pending_survives**: whatever value attribute `a` of object `k` holds (in
@@ -511,6 +525,27 @@ theorem pending_survives (c : Cfg) (st : St) (op : Op) (k : Nat) (a : Attr) (o :
   | extIns k' w =>
     simp only [step]
     split <;> exact ⟨o, ho, hd⟩
+  | detach k' =>
+    simp only [Discards, beq_eq_false_iff_ne, ne_eq] at hnd
+    simp only [step]
+    split
+    · split
+      · exact ⟨o, ho, hd⟩
+      · refine ⟨o, ?_, hd⟩
+        have hne : ¬ k = k' := fun h => hnd h.symm
+        simp only [hne, if_false]
+        exact ho
+    · exact ⟨o, ho, hd⟩
+  | attach k' m =>
+    simp only [step]
+    split
+    · rename_i o2 hn hs
+      by_cases hkk : k = k'
+      · subst hkk; rw [ho] at hn; cases hn
+      · refine ⟨o, ?_, hd⟩
+        simp only [hkk, if_false]
+        exact ho
+    · exact ⟨o, ho, hd⟩
 
 /-! ## coherence over arbitrary histories -/
 
@@ -622,7 +657,7 @@ theorem step_wf (c : Cfg) (st : St) (op : Op) (hok : opOk c op = true) (hw : WF 
     cases ho : st.objs k with
     | none => (try dsimp only); exact hw
     | some o => (try dsimp only); exact wf_setObj hw k _ (wfObj_expireSel (hw k o ho) attrs)
-  | expireAll => exact wf_expireAll c _ _ _ _
+  | expireAll => exact wf_expireAll c _ _ _ _ _
   | refresh k attrs =>
     simp only [step]
     cases ho : st.objs k with
@@ -754,7 +789,7 @@ theorem step_wf (c : Cfg) (st : St) (op : Op) (hok : opOk c op = true) (hw : WF 
         · simp only [hlt, if_false] at hk; exact hw k' o' hk
       try simp only
       by_cases he : c.eoc = true
-      · simp only [he, if_true]; exact wf_expireAll c _ _ _ _
+      · simp only [he, if_true]; exact wf_expireAll c _ _ _ _ _
       · simp only [he, Bool.false_eq_true, if_false]; exact hw1
   | rollback =>
     simp only [step]
@@ -764,6 +799,28 @@ theorem step_wf (c : Cfg) (st : St) (op : Op) (hok : opOk c op = true) (hw : WF 
   | extSet k a v => simp only [step]; split <;> exact hw
   | extDel k => simp only [step]; split <;> exact hw
   | extIns k v => simp only [step]; split <;> exact hw
+  | detach k =>
+    simp only [step]
+    split
+    · split
+      · exact hw
+      · intro j o' hj
+        simp only at hj
+        by_cases hjk : j = k
+        · simp [hjk] at hj
+        · simp only [hjk, if_false] at hj; exact hw j o' hj
+    · exact hw
+  | attach k m =>
+    simp only [step]
+    split
+    · intro j o' hj
+      simp only at hj
+      by_cases hjk : j = k
+      · simp only [hjk, if_true, Option.some.injEq] at hj
+        rw [← hj]
+        exact ⟨fun _ h => by simp [cleanCopy] at h, fun _ h => by simp [cleanCopy] at h⟩
+      · simp only [hjk, if_false] at hj; exact hw j o' hj
+    · exact hw
 
 /-- every operation *of the session* keeps coherence -/
 theorem step_coh (c : Cfg) (st : St) (op : Op) (hok : opOk c op = true) (hext : isExt op = false)
@@ -808,7 +865,7 @@ theorem step_coh (c : Cfg) (st : St) (op : Op) (hok : opOk c op = true) (hext : 
     cases ho : st.objs k with
     | none => (try dsimp only); exact hc
     | some o => (try dsimp only); exact coh_setObj hc k _ (cohObj_expireSel (hc k o ho) attrs)
-  | expireAll => exact coh_expireAll _ _ _ _
+  | expireAll => exact coh_expireAll _ _ _ _ _
   | refresh k attrs =>
     simp only [step]
     cases ho : st.objs k with
@@ -862,7 +919,7 @@ theorem step_coh (c : Cfg) (st : St) (op : Op) (hok : opOk c op = true) (hext : 
       obtain ⟨_, hc1⟩ := doFlush_inv hw hc hf
       try simp only
       by_cases he : c.eoc = true
-      · simp only [he, if_true]; exact coh_expireAll _ _ _ _
+      · simp only [he, if_true]; exact coh_expireAll _ _ _ _ _
       · simp only [he, Bool.false_eq_true, if_false]; exact hc1
   | rollback =>
     simp only [step]
@@ -872,6 +929,8 @@ theorem step_coh (c : Cfg) (st : St) (op : Op) (hok : opOk c op = true) (hext : 
   | extSet k a v => simp [isExt] at hext
   | extDel k => simp [isExt] at hext
   | extIns k v => simp [isExt] at hext
+  | detach k => simp [isExt] at hext
+  | attach k m => simp [isExt] at hext
 
 theorem wf_run (c : Cfg) (ops : List Op) (hok : ∀ op ∈ ops, opOk c op = true) (st : St)
     (hw : WF c st) : WF c (run c st ops) := by
@@ -895,7 +954,7 @@ theorem coh_run (c : Cfg) (ops : List Op) (hok : ∀ op ∈ ops, opOk c op = tru
 
 /-- whatever the other connection did before: expire_all re-establishes coherence -/
 theorem coh_after_expireAll (c : Cfg) (st : St) : Coh (step c st .expireAll).1 :=
-  coh_expireAll _ _ _ _
+  coh_expireAll _ _ _ _ _
 
 theorem coh_after_rollback (c : Cfg) (st : St) (htx : st.txn = true) : Coh (step c st .rollback).1 := by
   simp only [step, htx, if_true]; exact coh_rolledBack st
@@ -904,7 +963,7 @@ theorem coh_after_commit_eoc (c : Cfg) (heoc : c.eoc = true) (st : St) : Coh (st
   simp only [step]
   cases hf : doFlush c st with
   | none => exact coh_rolledBack st
-  | some st1 => simp only [heoc, if_true]; exact coh_expireAll _ _ _ _
+  | some st1 => simp only [heoc, if_true]; exact coh_expireAll _ _ _ _ _
 
 /-- **read_coherent** (user level): history = arbitrary operations (external writes
     included), then `expire_all`, then any operations of the session only.  Every
